@@ -251,7 +251,7 @@ def _gen_case(rng, tier):
         elif n == "ior":
             op.update(a=arg())
         elif n in ("setdefault", "pop", "popall", "get", "getlist"):
-            op.update(k=K(), d=D())
+            op.update(k=K(), d=D(), kwd=rng.random() < 0.4)      # kwd: pass the default by keyword
         elif n == "poplast":
             op.update(k=rng.choice([None, K(), K()]), d=D())
         elif n == "new":
@@ -543,13 +543,20 @@ def _do(OMD, regs, op):
         return (val(None) if dd is d else ["bool", False]), spoil
     if n == "setdefault":
         k = obj(op["k"])
+        if op["d"] is not None and op.get("kwd"):
+            return val(d.setdefault(k, default=obj(op["d"]))), spoil
         return val(d.setdefault(k) if op["d"] is None else d.setdefault(k, obj(op["d"]))), spoil
     if n == "pop":
         k = obj(op["k"])
+        if op["d"] is not None and op.get("kwd"):
+            return val(d.pop(k, default=obj(op["d"]))), spoil
         return val(d.pop(k) if op["d"] is None else d.pop(k, obj(op["d"]))), spoil
     if n == "popall":
         k = obj(op["k"])
-        x = d.popall(k) if op["d"] is None else d.popall(k, obj(op["d"]))
+        if op["d"] is not None and op.get("kwd"):
+            x = d.popall(k, default=obj(op["d"]))
+        else:
+            x = d.popall(k) if op["d"] is None else d.popall(k, obj(op["d"]))
         if isinstance(x, list) and not (op["d"] is not None and x is obj(op["d"])):
             spoil.append(x)
             return ["list", [tok(v) for v in x]], spoil
@@ -611,10 +618,15 @@ def _do(OMD, regs, op):
         return ["list", [tok(k) for k in reversed(d)]], spoil
     if n == "get":
         k = obj(op["k"])
+        if op["d"] is not None and op.get("kwd"):
+            return val(d.get(k, default=obj(op["d"]))), spoil
         return val(d.get(k) if op["d"] is None else d.get(k, obj(op["d"]))), spoil
     if n == "getlist":
         k = obj(op["k"])
-        x = d.getlist(k) if op["d"] is None else d.getlist(k, obj(op["d"]))
+        if op["d"] is not None and op.get("kwd"):
+            x = d.getlist(k, default=obj(op["d"]))
+        else:
+            x = d.getlist(k) if op["d"] is None else d.getlist(k, obj(op["d"]))
         if isinstance(x, list) and not (op["d"] is not None and x is obj(op["d"])):
             spoil.append(x)
             return ["list", [tok(v) for v in x]], spoil
